@@ -79,11 +79,50 @@ def case_strategy(tier):
     return cases()
 
 
-_patch_state = {"installed": False, "naps": None, "count": 0}
+_patch_state = {"installed": False, "naps": None, "count": 0, "slow": None}
+
+
+class _SlowLink:
+    """Latency on the link towards one agent: management messages posted by OTHER agents to its management
+    computation are handed to the real post_msg `ms` milliseconds later, in posting order, from a courier thread
+    (post_msg is what communication layers call from their own threads)."""
+
+    def __init__(self, agent, ms):
+        import queue
+        self.dest = "_mgt_" + agent
+        self.agent, self.ms = agent, ms
+        self.q = queue.Queue()
+        self.delayed = 0
+        self.thread = threading.Thread(target=self._run, daemon=True, name="vf-slow-link")
+        self.thread.start()
+
+    def _run(self):
+        while True:
+            item = self.q.get()
+            if item is None:
+                return
+            due, call = item
+            time.sleep(max(0.0, due - time.time()))
+            try:
+                call()
+            except Exception:  # the run may be over: the destination is gone
+                pass
+
+    def take(self, orig, messaging, a, k):
+        dest = a[1] if len(a) > 1 else k.get("dest_computation")
+        if dest != self.dest or getattr(messaging, "_local_agent", None) == self.agent:
+            return False
+        self.delayed += 1
+        self.q.put((time.time() + self.ms / 1000.0, lambda: orig(messaging, *a, **k)))
+        return True
+
+    def close(self):
+        self.q.put(None)
 
 
 def _install_perturbation():
-    """Class-level wrapper around Messaging.post_msg: sleeps naps[k % 8] * 100 us before every k-th post while armed."""
+    """Class-level wrapper around Messaging.post_msg: sleeps naps[k % 8] * 100 us before every k-th post while armed;
+    with a slow link armed, management messages towards one agent travel late (see _SlowLink)."""
     from pydcop.infrastructure.communication import Messaging
     if _patch_state["installed"]:
         return
@@ -96,6 +135,9 @@ def _install_perturbation():
             n = naps[_patch_state["count"] % len(naps)]
             if n:
                 time.sleep(n * 1e-4)
+        slow = _patch_state["slow"]
+        if slow is not None and slow.take(orig, self, a, k):
+            return None
         return orig(self, *a, **k)
 
     Messaging.post_msg = post_msg
